@@ -40,6 +40,10 @@ impl Task {
             final(h).wf() && fwd(*old(h), *final(h)) && final(h).cur == old(h).cur,
 //@@ end
 }
+// SubflowPackage::execute marks the calling act `$auto_complete = false`: the act waits for the return of its sub-process (C15)
+pub open spec fn waits_for_return(h: Heap, t: Tid) -> bool {
+    h.tasks[t].flags.dom().contains(consts::TASK_AUOT_COMPLETE@) && !h.tasks[t].flags[consts::TASK_AUOT_COMPLETE@]
+}
 pub open spec fn sib_set(h: Heap, t: Tid) -> Set<Tid> {
     if parent_tid(t) is Some { children_of(h, parent_tid(t)->Some_0).remove(t) } else { Set::empty() }
 }
@@ -181,6 +185,8 @@ impl Context {
         ensures
             //# E2-emit-error-fwd
             final(h).wf() && fwd(*old(h), *final(h)),
+            //# E2-nothing-happens-unless-the-current-task-is-in-error
+            !(old(h).st(old(h).cur) is Error) ==> *final(h) == *old(h) && ret is Ok,
 //@@ end
 //@@ extract file=acts/src/scheduler/context.rs in="impl Context" item="fn dispatch_acts" name=Context::dispatch_acts props=C16
 //@@ opt rewrites=R1,R2,R3,R5,R13,R22 noheap=push
@@ -936,6 +942,10 @@ impl ActTask for Act {
 //@@ end
 //@@ extract file=acts/src/scheduler/process/task/act.rs in="impl ActTask for Act" item="fn review" name=Act::review props=C02,C03,C04
 //@@ opt traitpost
+//@@ spec
+        ensures
+            //# B6-an-act-that-waits-for-its-sub-process-is-not-completed-by-its-own-children [C15]
+            waits_for_return(*old(h), old(h).cur) && !(old(h).st(old(h).cur) is Completed) ==> !(final(h).st(old(h).cur) is Completed),
 //@@ loop 1
         invariant
             //# count-bound
